@@ -16,6 +16,11 @@ def plan(tier):
            (PG.shutdown_late_error(1), 1, PT),
            (PG.shutdown_form(2, "wait", 2, None), 1, dict(kinds=("K",), kill_when="after_shutdown")),
            (PG.shutdown_form(2, "exit", 2, 0.05), 1, dict(kinds=("K",), kill_when="after_shutdown"))]
+    # submit racing with shutdown from another thread (either raises or the task runs):
+    # starvation policy for the submitting thread + two preemptions
+    pl += [(PG.submit_vs_shutdown(1, True), 2, dict(kinds=("P",), starve="parent:user")),
+           (PG.submit_vs_shutdown(1, False), 1, dict(kinds=("P", "T"), starve="parent:user")),
+           (PG.submit_vs_shutdown(2, True), 1, PT)]
     if tier == "thorough":
         pl += [(PG.shutdown_form(1, f, 1, 0.05), 2, PT) for f in ("wait", "nowait", "del", "exit")]
         pl += [(PG.shutdown_form(2, "wait", 2, None), 2, dict(kinds=("P",)))]
